@@ -48,88 +48,76 @@ def short_dec(p):
 
 
 def r1(F, R):
+    """FailOnSkipped's transformation, decided on the deep path table of its handle_event (deep.py): per event shape, what
+    is asked of the predicate and what is forwarded to the inner writer."""
+    from . import deep as D
     fn, co = handle_event_co(F, FOS)
-    nested = F.nested(co)
-    # the mapping closure: the nested closure with the largest decision tree over event ADTs
-    cands = []
-    for b in nested:
-        if b.kind != "Closure" or b.is_coroutine:
-            continue
-        ps = A.enumerate_paths(b)
-        if any("Step" in short_dec(p) for p in ps) and len(ps) >= 8:
-            cands.append((b, ps))
-    if len(cands) != 1:
-        raise Unverifiable(f"FailOnSkipped mapping closure: {len(cands)}")
-    mb, paths = cands[0]
+    only = lambda cb: cb.name.startswith("event::") or cb.name.startswith("writer::fail_on_skipped::") or bool(cb.impl and cb.impl.get("self_adt") == FOS and not cb.impl.get("trait"))
+    dp = D.Deep(F, co, inline_only=only, max_paths=4000)
+    paths = dp.run()
+    if not paths or any(p.cut for p in paths):
+        raise Unverifiable("FailOnSkipped::handle_event: empty path table or a loop")
+    ev_root = None
+    for i, nm in co.upvar_names().items():
+        if nm in ("event", "ev"):
+            ev_root = ("field", ("arg", 1), i)
+    if ev_root is None:
+        raise Unverifiable("event parameter of FailOnSkipped::handle_event")
     transforming = []
+    n_fwd_bad = 0
     for p in paths:
-        d = short_dec(p)
-        calls = [(s, t) for s, t in p.calls() if callee_is(t, r"ops::Fn(Mut|Once)?::call(_mut|_once)?$")]
-        key = (d.get("Feature"), d.get("Scenario"), d.get("Step"))
+        d = {}
+        for a, o in p.conds:
+            if a[0] == "discr" and isinstance(o, str):
+                adt = dp.adt_of.get(a, "")
+                if adt.startswith("event::") and D.mentions(a[1], lambda x: x == ev_root):
+                    d[adt.rsplit("::", 1)[-1]] = o
+        preds = [(i, e) for i, e in enumerate(p.effects) if e[0] == "call" and e[1] == "<indirect>"]
+        fwds = [(i, e) for i, e in enumerate(p.effects) if e[0] == "call" and re.search(r"Writer::handle_event$", e[1])]
+        if len(fwds) != 1:
+            n_fwd_bad += 1
+            continue
+        sent = fwds[0][1][2][1]
         is_target = d.get("Cucumber") == "Feature" and d.get("Feature") in ("Rule", "Scenario") and (d.get("Feature") != "Rule" or d.get("Rule") == "Scenario") \
             and d.get("Scenario") in ("Background", "Step") and d.get("Step") == "Skipped"
         if is_target:
             inst = f"transforms/{d.get('Feature')}-level/{d.get('Scenario')}"
-            ok = len(calls) == 1
-            why = f"{len(calls)} mapper calls"
+            ok = len(preds) == 1 and preds[0][0] < fwds[0][0]
+            why = f"{len(preds)} predicate calls"
             if ok:
-                s, t = calls[0]
-                kb = A.closure_of_operand(F, mb, t["args"][0])
-                # what does the mapper build
-                built = set()
-                if kb is not None:
-                    for nb in F.nested(kb):
-                        for _, st in nb.assigns(lambda st: st["rv"]["k"] == "agg" and st["rv"].get("adt") == "event::Scenario"):
-                            built.add(st["rv"]["variant"])
-                tup = op_local(t["args"][1])
-                sd = mb.single_def(tup) if tup is not None else None
-                rule_arg = None
-                if sd and sd[1] == "assign" and sd[2]["rv"]["k"] == "agg":
-                    for o in sd[2]["rv"]["ops"]:
-                        l = op_local(o)
-                        if l is not None and mb.locals[l].startswith("std::option::Option<event::Source<gherkin::Rule>>"):
-                            sdd = mb.single_def(l)
-                            if sdd and sdd[1] == "assign" and sdd[2]["rv"]["k"] == "agg":
-                                rule_arg = sdd[2]["rv"]["variant"]
+                pe = preds[0][1]
+                pterm = ("call", pe[1], pe[2], pe[4])
+                verdict = [o for a, o in p.conds if a == pterm]
+                # the predicate's rule argument: Some(..) for rule-level, None for feature-level scenarios
+                rule_arg = [x for x in pe[2] if D.is_variant(x, "std::option::Option")]
                 want_rule = "Some" if d.get("Feature") == "Rule" else "None"
-                ok = built == {d.get("Scenario")} and rule_arg == want_rule
-                why = f"mapper builds Scenario::{sorted(built)} with rule = {rule_arg}"
-            R.check(ok, inst, Site(mb, p.blocks[-1], "T"), f"Skipped {d.get('Scenario')} step -> mapper of the same kind, rule {'' if d.get('Feature') == 'Rule' else 'not '}passed",
+                kinds = {x[2] for x in D.subterms(sent) if D.is_variant(x, "event::Scenario")}
+                steps = [x for x in D.subterms(sent) if D.is_variant(x, "event::Step")]
+                level_ok = (d.get("Feature") == "Rule") == any(D.is_variant(x, "event::Feature", "Rule") for x in D.subterms(sent))
+                ok = len(verdict) == 1 and len(rule_arg) == 1 and rule_arg[0][2] == want_rule and kinds == {d.get("Scenario")} and len(steps) == 1 and level_ok
+                why = f"forwards Scenario::{sorted(kinds)} with predicate rule argument {[x[2] for x in rule_arg]}"
+                if ok:
+                    st_ev = steps[0]
+                    if verdict[0] is True:
+                        nf = st_ev[2] == "Failed" and D.is_variant(st_ev[3][3] if len(st_ev[3]) > 3 else None, "event::StepError", "NotFound") and \
+                            all(D.is_variant(x, "std::option::Option", "None") for x in st_ev[3][:3])
+                        R.check(nf, "failed-iff-predicate", T_site(F, pe), "should_fail => Failed(None, None, None, NotFound)",
+                                f"with the predicate true the step is forwarded as Step::{st_ev[2]} (expected Failed(None, None, None, NotFound))")
+                    else:
+                        R.check(st_ev[2] == "Skipped", "skipped-otherwise", T_site(F, pe), "!should_fail => Skipped", f"with the predicate false the step is forwarded as Step::{st_ev[2]}")
+                    # the event's own feature / scenario / retries are kept
+                    ok = D.mentions(sent, lambda x: x == ev_root)
+                    why = "the forwarded event is not built from the received one"
+            R.check(ok, inst, co, f"Skipped {d.get('Scenario')} step -> predicate asked, same kind and level forwarded",
                     f"{d.get('Feature')}-level {d.get('Scenario')} Skipped event: {why}")
-            transforming.append(key)
+            transforming.append((d.get("Feature"), d.get("Scenario"), d.get("Step")))
         else:
             inst = "identity/" + "/".join(f"{k}={v}" for k, v in sorted(d.items()))
-            R.check(not calls, inst, Site(mb, p.blocks[-1], "T"), "event passes through unchanged", f"a non-Skipped event ({d}) is transformed")
-    R.check(sorted(map(str, transforming)) == sorted(map(str, [("Rule", "Background", "Skipped"), ("Rule", "Step", "Skipped"), ("Scenario", "Background", "Skipped"), ("Scenario", "Step", "Skipped")])),
-            "four-transforming-arms", mb, "4 (level x kind) arms", f"transforming arms: {transforming}")
-    # map_failed: Failed(None,None,None,NotFound) iff predicate
-    mf = None
-    for b in nested:
-        aggs = [(s, st) for s, st in b.assigns(lambda st: st["rv"]["k"] == "agg" and st["rv"].get("adt") == "event::Step")]
-        if {st["rv"]["variant"] for _, st in aggs} == {"Failed", "Skipped"}:
-            mf = (b, aggs)
-    if mf is None:
-        R.violation("mapper-found", co, "no closure building both Step::Failed and Step::Skipped")
-    else:
-        b, aggs = mf
-        for s, st in aggs:
-            pol = None
-            for g in A.guards_of(b, s):
-                d = g.cond_def()
-                if d and d[0] == "call" and re.search(r"ops::Fn", (op_fn(d[2]["func"]) or {}).get("trait", "")) and (op_fn(d[2]["func"]) or {}).get("self", "").lstrip("&") == "F":
-                    pol = g.polarity()
-            if st["rv"]["variant"] == "Failed":
-                sl = A.slice_back(b, st["rv"]["ops"])
-                nf = [rv for _, rv in sl.aggs if rv.get("adt") == "event::StepError"]
-                nones = [rv for _, rv in sl.aggs if rv.get("adt") == "std::option::Option" and rv["variant"] == "None"]
-                R.check(pol is True and len(nf) == 1 and nf[0]["variant"] == "NotFound" and len(nones) >= 3, "failed-iff-predicate", s, "should_fail => Failed(None, None, None, NotFound)",
-                        f"Step::Failed is produced on the {pol} edge of the predicate / with payload {[rv['variant'] for rv in nf]}")
-            else:
-                R.check(pol is False, "skipped-otherwise", s, "!should_fail => Skipped", f"Step::Skipped is produced on the {pol} edge of the predicate")
-    # inner writer called exactly once with the mapped event
-    inner = [(s, t) for s, t in co.calls(lambda t: (op_fn(t["func"]) or {}).get("trait") == "writer::Writer")]
-    R.check(len(inner) == 1 and not co.entry_reaches_return(stop=[inner[0][0]]) and not co.in_cycle(inner[0][0]), "forward-once", inner[0][0] if inner else co,
-            "inner.handle_event(mapped) exactly once", f"{len(inner)} inner handle_event call sites / not on every path")
+            same = not preds and _is_rewrap_of(sent, ev_root)
+            R.check(same, inst, co, "event passes through unchanged", f"a non-Skipped event ({d}) is transformed (or the predicate is consulted)")
+    R.check(sorted(set(map(str, transforming))) == sorted(map(str, [("Rule", "Background", "Skipped"), ("Rule", "Step", "Skipped"), ("Scenario", "Background", "Skipped"), ("Scenario", "Step", "Skipped")])),
+            "four-transforming-arms", co, "4 (level x kind) arms", f"transforming arms: {sorted(set(transforming))}")
+    R.check(n_fwd_bad == 0, "forward-once", co, "inner.handle_event(mapped) exactly once", f"{n_fwd_bad} paths do not forward exactly one event to the inner writer")
     # default predicate
     froms = [b for b in F.crate_bodies() if (b.impl or {}).get("self_adt") == FOS and (b.impl or {}).get("trait") == "std::convert::From"]
     if len(froms) != 1:
@@ -153,6 +141,27 @@ def r1(F, R):
         neg = bool(sd and sd[1] == "assign" and sd[2]["rv"]["k"] == "un" and sd[2]["rv"]["op"] == "Not" and op_local(sd[2]["rv"]["a"]) == t["dest"]["l"])
         R.check(neg, "default-predicate/negated", pred, "should_fail = !tagged", "the default predicate is not the negation of `tagged @allow.skipped`")
     R.floor(22)
+
+
+def T_site(F, e):
+    key, bb, idx = e[3]
+    b = F.bodies.get(key)
+    return Site(b, bb, idx) if b is not None else None
+
+
+def _is_rewrap_of(sent, ev_root):
+    """Is the forwarded term the received event itself, possibly taken apart and put together again
+    (`Ok(Event(value of the received Ok event))`, `Err(error of the received Err)`)?"""
+    from . import deep as D
+    if sent == ev_root:
+        return True
+    # every leaf of the term is a projection of the received event, and no event variant is constructed anew
+    for x in D.subterms(sent):
+        if x[0] == "variant" and x[1].startswith("event::") and x[1] not in ("event::Event", "event::Metadata"):
+            return False
+        if x[0] in ("call", "const", "await", "unknown"):
+            return False
+    return D.mentions(sent, lambda x: x == ev_root)
 
 
 def filter_true_sets(F, kb):
